@@ -70,8 +70,20 @@ func c13(args []string) int {
 			}
 			return 777
 		}, "FSP": func() int { r, _, _ := fnzoo.FSP(2); return r },
+		// the interface variable is nil before each case: untouched means still nil (reported as the original's answer)
+		"I.Get": func() int {
+			if c13Var == nil {
+				return 2
+			}
+			return c13Var.Get(2)
+		}, "I.Put": func() int {
+			if c13Var == nil {
+				return 5
+			}
+			return c13Var.Put("s", 5)
+		},
 	}
-	orig := map[string]int{"F1": -1002, "F2": -2003, "F2R": -6002, "FV": -3012, "T.M": -7003, "G1": -1102, "FS": 19, "FP": -55, "FSP": -1}
+	orig := map[string]int{"F1": -1002, "F2": -2003, "F2R": -6002, "FV": -3012, "T.M": -7003, "G1": -1102, "FS": 19, "FP": -55, "FSP": -1, "I.Get": 2, "I.Put": 5}
 	ph := fnzoo.PH1
 	var cases []c13Case
 	add := func(class, name, target, want string, run func(b *mocker.Builder)) {
@@ -178,6 +190,28 @@ func c13(args []string) int {
 			panic(err)
 		}
 	})
+	// --- interface callbacks whose shape does not fit the method (the first parameter is the *IContext)
+	add("callback-arg-count", "I.Get one more", "I.Get", "", func(b *mocker.Builder) {
+		b.Interface(&c13Var).Method("Get").Apply(func(ctx *mocker.IContext, a int, extra int) int { return 1 })
+	})
+	add("callback-arg-count", "I.Put one more", "I.Put", "", func(b *mocker.Builder) {
+		b.Interface(&c13Var).Method("Put").Apply(func(ctx *mocker.IContext, s string, n int, extra string) int { return 1 })
+	})
+	add("callback-result-count", "I.Get two results", "I.Get", "", func(b *mocker.Builder) {
+		b.Interface(&c13Var).Method("Get").Apply(func(ctx *mocker.IContext, a int) (int, int) { return 1, 2 })
+	})
+	add("callback-result-count", "I.Get no result", "I.Get", "", func(b *mocker.Builder) {
+		b.Interface(&c13Var).Method("Get").Apply(func(ctx *mocker.IContext, a int) {})
+	})
+	add("callback-arg-size", "I.Get string", "I.Get", "", func(b *mocker.Builder) {
+		b.Interface(&c13Var).Method("Get").Apply(func(ctx *mocker.IContext, a string) int { return 1 })
+	})
+	add("callback-result-size", "I.Get int8", "I.Get", "", func(b *mocker.Builder) {
+		b.Interface(&c13Var).Method("Get").Apply(func(ctx *mocker.IContext, a int) int8 { return 1 })
+	})
+	add("unknown-method", "I.Nope", "I.Get", "", func(b *mocker.Builder) {
+		b.Interface(&c13Var).Method("Nope").Apply(func(ctx *mocker.IContext, a int) int { return 1 })
+	})
 	add("interface-non-interface", "*int", "", "", func(b *mocker.Builder) {
 		x := 1
 		b.Interface(&x).Method("Get").Apply(func(ctx *mocker.IContext, a int) int { return 1 })
@@ -196,7 +230,7 @@ func c13(args []string) int {
 	for _, premocked := range []bool{false, true} {
 		for i := range cases {
 			cs := &cases[i]
-			if premocked && cs.Target == "" {
+			if premocked && (cs.Target == "" || cs.Target == "I.Get" || cs.Target == "I.Put") {
 				continue
 			}
 			pre := mocker.Create()
@@ -260,6 +294,74 @@ func c13(args []string) int {
 				return hash() == pristineHash
 			}()
 			out.Put(res)
+		}
+	}
+	// ---- interface callbacks of generated shapes against proxy.Interface (correspondence with Model/Errors.iface_imp_check)
+	{
+		rng := hxlib.NewRng(c.seed + 77)
+		pal := []reflect.Type{reflect.TypeOf(int8(0)), reflect.TypeOf(0), reflect.TypeOf(""), reflect.TypeOf([]int(nil)), reflect.TypeOf([4]int{}), reflect.TypeOf((*mocker.IContext)(nil))}
+		methods := []struct {
+			name string
+			ins  []reflect.Type
+			outs []reflect.Type
+		}{{"Get", []reflect.Type{pal[1]}, []reflect.Type{pal[1]}}, {"Put", []reflect.Type{pal[2], pal[1]}, []reflect.Type{pal[1]}}}
+		sizes := func(ts []reflect.Type) []int {
+			o := make([]int, len(ts))
+			for i, t := range ts {
+				o[i] = int(t.Size())
+			}
+			return o
+		}
+		n := 400
+		if c.tier == "thorough" {
+			n = 6000
+		}
+		for k := 0; k < n; k++ {
+			m := methods[rng.Intn(2)]
+			var ins, outs []reflect.Type
+			switch rng.Intn(4) {
+			case 0: // the exact shape, perhaps with one slot of another size
+				ins = append([]reflect.Type{pal[5]}, m.ins...)
+				outs = append(outs, m.outs...)
+				if rng.Intn(2) == 0 {
+					if j := rng.Intn(len(ins) + len(outs)); j < len(ins) {
+						ins[j] = pal[rng.Intn(5)]
+					} else {
+						outs[j-len(ins)] = pal[rng.Intn(5)]
+					}
+				}
+			default:
+				for i, ni := 0, rng.Intn(5); i < ni; i++ {
+					ins = append(ins, pal[rng.Intn(len(pal))])
+				}
+				for i, no := 0, rng.Intn(3); i < no; i++ {
+					outs = append(outs, pal[rng.Intn(5)])
+				}
+			}
+			ft := reflect.FuncOf(ins, outs, false)
+			imp := reflect.MakeFunc(ft, func(a []reflect.Value) []reflect.Value {
+				r := make([]reflect.Value, len(outs))
+				for i, t := range outs {
+					r[i] = reflect.Zero(t)
+				}
+				return r
+			}).Interface()
+			c13Var = c13Impl{}
+			verdict := "accepted"
+			func() {
+				defer func() {
+					if e := recover(); e != nil {
+						verdict = "panic"
+					}
+				}()
+				if err := proxy.Interface(&c13Var, iface.NewContext(), m.name, imp, nil); err != nil {
+					verdict = "error"
+				}
+			}()
+			_, untouched := c13Var.(c13Impl)
+			c13Var = nil
+			out.Put(map[string]interface{}{"kind": "iface-shape", "method": m.name, "m_ins": sizes(m.ins), "m_outs": sizes(m.outs), "ins": sizes(ins), "outs": sizes(outs),
+				"verdict": verdict, "untouched": untouched})
 		}
 	}
 	_ = reflect.TypeOf
